@@ -269,10 +269,11 @@ func arcOracle(s polySpec, vs []v2.Vec, viol violFn) string {
 			return name
 		}
 	}
-	// equal chords, endpoints included
+	// equal chords, endpoints included (the stepping angle is an acos: near the semicircle, where its
+	// argument approaches -1, it carries sqrt(ulp) ~ 1e-8 of relative error, which the last facet absorbs)
 	c0 := norm(sub(vs[1], vs[0]))
 	for j := 1; j < n; j++ {
-		if e := math.Abs(norm(sub(vs[j+1], vs[j])) - c0); e > 1e-9*L+1e-13*scale {
+		if e := math.Abs(norm(sub(vs[j+1], vs[j])) - c0); e > 1e-6*L+1e-13*scale {
 			viol(fmt.Sprintf("facet %d has length %.17g, facet 0 has %.17g: the points do not divide the arc evenly up to its endpoint", j, norm(sub(vs[j+1], vs[j])), c0))
 			return name
 		}
